@@ -96,6 +96,16 @@ struct C06 : Scenario {
 		o.tzoff = tz_offset_of(p.gets("tz"));
 		o.explicit_dirs_only = lib || rng.chance(1, 2);
 		gen_tree(rng, o, p.members);
+		if (rng.chance(1, 8)) {
+			// members of methods that exist (or may exist) but cannot be decoded here: they fail - without a trace in the tree
+			static const char *um[] = {"-lh2-", "-lh3-", "-lh8-"};   // ("-lh?-" keeps the archive recognisable when such a member comes first)
+			for (auto &m : p.members)
+				if (m.kind == 'f' && m.os != 'm' && rng.chance(1, 3)) {
+					Bytes pl = member_plain(m);
+					m.plain = pl; m.data = member_data(m); m.payload.clear(); m.cut = -1;
+					m.method = um[rng.below(3)];
+				}
+		}
 		int euid = rng.chance(1, 2) ? 0 : 1000;
 		p.seti("euid", euid);
 		static const int umasks[] = {022, 002, 077, 000, 027};
@@ -263,6 +273,7 @@ struct C06 : Scenario {
 		int selected = 0;
 		bool interesting = false;
 		int blocked = 0;      // entries that lie directly below a directory of the initial tree the user may not write to
+		int undecodable = 0;  // members of a method this build has no decoder for: they fail, and leave everything as it was
 	};
 
 	static void model_parents(Model &M, const std::string &path, const std::string &stop) {
@@ -330,7 +341,8 @@ struct C06 : Scenario {
 				if (m.kind == 'l') { if (op.q < 2) M.pstdout += "Symbolic Link " + (op.w.empty() ? "" : op.w + "/") + rel + " -> " + m.gtarget + "\n"; }
 				else if (m.kind == 'f') {
 					if (op.q < 2) M.pstdout += "::::::::\n" + (op.w.empty() ? "" : op.w + "/") + rel + "\n::::::::\n";
-					M.pstdout += to_str(member_contents(m));
+					// (a member that cannot be decoded yields nothing behind its banner)
+					if (!(m.method == "-lh2-" || m.method == "-lh3-" || m.method == "-lh8-")) M.pstdout += to_str(member_contents(m));
 				}
 				continue;
 			}
@@ -420,6 +432,13 @@ struct C06 : Scenario {
 			}
 			if (!write) continue;
 			model_parents(M, out, cwd);
+			if (m.method == "-lh2-" || m.method == "-lh3-" || m.method == "-lh8-") {
+				// nothing can be produced for it: no file appears, and an old file of that name (the overwrite question has been
+				// asked and answered by now) is still there, untouched
+				M.undecodable++;
+				M.interesting = true;
+				continue;
+			}
 			MNode f;
 			f.type = 'f';
 			f.check_data = true;
@@ -567,7 +586,9 @@ struct C06 : Scenario {
 				for (auto &l : env.fs.log) if (l.injected) faulted = true;
 				if (res.ok && M.blocked && r.status == 0 && !r.exited)
 					res.fail("C06.exit_status", "exit:blocked", ctx + ": exit status 0 although entries below a directory without write permission could not be extracted");
-				if (res.ok && !M.has_unsafe && !faulted && !M.blocked && (r.status != 0 || r.exited))
+				if (res.ok && M.undecodable && r.status == 0 && !r.exited)
+					res.fail("C06.exit_status", "exit:undecodable", ctx + ": exit status 0 although a selected member is of a method that cannot be decoded");
+				if (res.ok && !M.has_unsafe && !faulted && !M.blocked && !M.undecodable && (r.status != 0 || r.exited))
 					res.fail("C06.exit_status", "exit", ctx + strf(": exit status %d%s although everything selected could be extracted\nstderr: %s", r.status, r.exited ? " (via exit())" : "", printable(r.err).c_str()));
 			}
 			size_t bad;
@@ -596,6 +617,7 @@ struct C06 : Scenario {
 		count("probe.fs_operations", env.fs.log.size());
 		if (M.has_unsafe) count("probe.unsafe_symlink_in_tree");
 		if (M.blocked) count("probe.entries_blocked_by_a_read_only_directory", (uint64_t) M.blocked);
+		if (M.undecodable) count("probe.members_of_an_undecodable_method", (uint64_t) M.undecodable);
 		for (auto &m : p.members) if (m.mac) { count("probe.macbinary_member"); break; }
 		for (auto &l : env.fs.log) if (l.err == EACCES || l.err == EPERM) { count("fault.F-PERM"); break; }
 		for (auto &l : env.fs.log) if (l.injected) { count("fault.F-SYSCALL." + l.op); break; }
